@@ -7,8 +7,8 @@ from core import Case, nlist
 from pyerr import canon_call
 
 PROP = 'C01'
-COQ_TARGETS = ['theories/PrimFacts.vo', 'theories/PrimFloat.vo']
-COQ_IMPORTS = 'From Coq Require Import String.\nFrom Bac Require Import Base Tag Prim PrimTables.'
+COQ_TARGETS = ['theories/PrimFacts.vo', 'theories/PrimFloat.vo', 'theories/PrimObjFacts.vo']
+COQ_IMPORTS = 'From Coq Require Import String.\nFrom Bac Require Import Base Tag Prim PrimTables PrimObj.'
 TABLE_OBLIGATIONS = ['enums_bijective', 'enums_in_range', 'bitstrings_wf', 'unsigned_limits_std']
 RULE = ('cases: for each of the 13 primitive classes and every Enumerated/BitString/Unsigned subclass found by the translator: '
         'integers +-{0,1,2} around 2^(8k), k=0..5, around +-2^31 and 2^32; bit strings of every length 0..64 (zero/one/alternating/random); '
@@ -17,7 +17,10 @@ RULE = ('cases: for each of the 13 primitive classes and every Enumerated/BitStr
         'literals (zeros, subnormals, max, RNE halfway cases, inf, NaN) and random patterns; dates/times over {0,1,127,128,254,255} and '
         'out-of-octet fields; x {tag, application octets, context octets with numbers 0,1,14,15,16,254 (quick) / 0..254 (thorough)}; decode of '
         'the produced octets and of malformed tags (wrong class/number/length).  non-trivial = the encoding has >= 1 content octet or the value '
-        'must be refused, or a decode that yields a value / is refused after looking at the data; distinct by (operation, class, input).')
+        'must be refused, or a decode that yields a value / is refused after looking at the data; distinct by (operation, class, input).  '
+        'Object life cycles: for every primitive class, histories on ONE object (construct, encode app/ctx, decode another tag into it, '
+        'assign, copy-construct, ObjectIdentifier.set_tuple/set_long/get_long, BitString.__setitem__, encode again), observation and state '
+        'compared after every call; non-trivial = history with >= 1 state change followed by an encode.')
 TRUSTED = ['model coq/theories/Prim.v written by hand after primitivedata.py Atomic classes and Tag.app_to_context/context_to_app; tie = correspondence',
            'gen/Enums.v: enumeration / bit-string / limit tables read from the imported classes by translator/enums.py',
            'round32/widen32 model C float<->double conversion as done by struct.pack/unpack(">f") on this platform (NaN quietening included); tied by correspondence on bit patterns',
@@ -375,6 +378,197 @@ def case_ctor(kind, cls, args):
     return Case('ctor-' + kind, coq, exp, key=('ctor', kind, cls, repr(args)), desc={'op': 'ctor', 'kind': kind, 'class': cls, 'args': repr(args)})
 
 
+# ------------------------------------------------------------------ object life cycles (model PrimObj.v)
+# history ops: ('enc', ctx|None) ('dec', tag) ('assign', spec) ('copy',) ('set_tuple', t, i) ('set_long', w) ('get_long',) ('setbit', i, b)
+OPC = {'enc': 1, 'dec': 3, 'assign': 4, 'copy': 5, 'set_tuple': 6, 'set_long': 7, 'get_long': 8, 'setbit': 9}
+
+
+def assign_raw(o, spec):
+    k = spec[0]
+    if k == 'bool':
+        o.value = spec[1]
+    elif k == 'unsigned':
+        o.value = spec[2]
+    elif k == 'integer':
+        o.value = spec[1]
+    elif k in ('real', 'double'):
+        o.value = b2d(spec[1])
+    elif k == 'octets':
+        o.value = bytes(spec[1])
+    elif k == 'chars':
+        o.strEncoding = spec[1]
+        o.strValue = bytes(spec[2])
+    elif k == 'bits':
+        o.value = list(spec[1])
+    elif k == 'enum':
+        o.value = spec[2]
+    elif k in ('date', 'time'):
+        o.value = tuple(spec[1])
+    elif k == 'objid':
+        o.value = (spec[1], spec[2])
+
+
+def impl_history(spec, ops):
+    """run the history on ONE implementation object; after every call: op code, outcome, object state"""
+    from bacpypes.pdu import PDUData
+    p = P()
+    k = spec[0]
+    box = [build_raw(spec)]
+    out = []
+    for op in ops:
+        o = box[0]
+        if op[0] == 'enc':
+            def f():
+                t = p.Tag()
+                o.encode(t)
+                if op[1] is not None:
+                    t = t.app_to_context(op[1])
+                pdu = PDUData()
+                t.encode(pdu)
+                return list(pdu.pduData)
+            res = canon_call(f, list)
+            code = 1 if op[1] is None else 2
+        elif op[0] == 'dec':
+            res = canon_call(lambda: o.decode(mk_tag(*op[1])), lambda r: [])
+            code = 3
+        elif op[0] == 'assign':
+            assign_raw(o, op[1])
+            res, code = [0], 4
+        elif op[0] == 'copy':
+            def f():
+                box[0] = type(o)(o)
+            res = canon_call(f, lambda r: [])
+            code = 5
+        elif op[0] == 'set_tuple':
+            res = canon_call(lambda: o.set_tuple(op[1], op[2]), lambda r: [])
+            code = 6
+        elif op[0] == 'set_long':
+            res = canon_call(lambda: o.set_long(op[1]), lambda r: [])
+            code = 7
+        elif op[0] == 'get_long':
+            res = canon_call(lambda: o.get_long(), lambda r: [r])
+            code = 8
+        elif op[0] == 'setbit':
+            def f():
+                o[op[1]] = op[2]
+            res = canon_call(f, lambda r: [])
+            code = 9
+        out += [code] + res + canon_value(k, box[0])
+    return out
+
+
+def coq_op(op):
+    if op[0] == 'enc':
+        return 'OEncApp' if op[1] is None else '(OEncCtx %d%%N)' % op[1]
+    if op[0] == 'dec':
+        return '(ODecode %s)' % coq_tag(op[1])
+    if op[0] == 'assign':
+        return '(OAssign %s)' % coq_prim(op[1])
+    if op[0] == 'copy':
+        return 'OCopy'
+    if op[0] == 'set_tuple':
+        return '(OSetTuple %s %s)' % (coq_eval(op[1]), zlit(op[2]))
+    if op[0] == 'set_long':
+        return '(OSetLong %s)' % zlit(op[1])
+    if op[0] == 'get_long':
+        return 'OGetLong'
+    if op[0] == 'setbit':
+        return '(OSetBit %s %s)' % (zlit(op[1]), 'true' if op[2] else 'false')
+    raise ValueError(op)
+
+
+def op_desc(op):
+    return [spec_desc(x) if isinstance(x, tuple) else (x.hex() if isinstance(x, (bytes, bytearray)) else x) for x in op]
+
+
+def case_history(spec, ops):
+    exp = impl_history(spec, ops)
+    coq = 'run %s objid_type_table objid_max_instance %d%%N %s [%s]' % (
+        table_of(spec), KNUM[spec[0]], coq_prim(spec), '; '.join(coq_op(o) for o in ops))
+    changed = any(o[0] in ('dec', 'assign', 'set_tuple', 'set_long', 'setbit') for o in ops[:-1])
+    return Case('history-' + spec[0], coq, exp, key=('hist', repr(spec), repr(ops)), nontrivial=changed and ops[-1][0] == 'enc',
+                desc={'op': 'history', 'spec': spec_desc(spec), 'ops': [op_desc(o) for o in ops]})
+
+
+def value_specs(rng, k):
+    """a few raw value specs of kind k (in and out of domain) for histories"""
+    if k == 'null':
+        return [('null',)]
+    if k == 'bool':
+        return [('bool', True), ('bool', False)]
+    if k == 'unsigned':
+        return [('unsigned', None, z) for z in (0, 1, 255, 256, 65535, 65536, 2 ** 32 - 1, 2 ** 32, rng.getrandbits(31))]
+    if k == 'integer':
+        return [('integer', z) for z in (0, -1, 127, 128, -128, -129, 32767, -32769, 2 ** 31 - 1, -2 ** 31, 2 ** 31, rng.getrandbits(30) - 2 ** 29)]
+    if k == 'real':
+        return [('real', d2b(b2f(rng.getrandbits(32) & 0xFF7FFFFF))) for _ in range(4)] + [('real', d2b(0.1)), ('real', d2b(1e39)), ('real', d2b(1.5))]
+    if k == 'double':
+        return [('double', rng.getrandbits(64)) for _ in range(4)] + [('double', d2b(0.1))]
+    if k == 'octets':
+        return [('octets', rand_bytes(rng, n)) for n in (0, 1, 4, 5, 9)]
+    if k == 'chars':
+        return [('chars', e, b) for e, b in CHAR_STATES]
+    if k == 'bits':
+        return [('bits', [rng.randrange(2) for _ in range(n)], None) for n in (0, 1, 7, 8, 9, 16, 17)]
+    if k in ('date', 'time'):
+        return [(k, tuple(rng.choice(OCT6) for _ in range(4))) for _ in range(4)] + [(k, (1, 2, 3, 256))]
+    if k == 'objid':
+        return [('objid', t, i) for t, i in [(0, 0), ('device', 5), (1023, 4194303), (8, 70000), (200, 1), ('analogValue', 4194303),
+                                               (rng.randrange(1024), rng.randrange(2 ** 22)), (1024, 0), ('noSuchType', 1)]]
+    raise ValueError(k)
+
+
+CHAR_STATES = [(0, b''), (0, b'AHU-1 supply'), (0, 'Grüße'.encode('utf-8')), (0, b'\xff\xfe'),
+               (3, 'Grüße'.encode('utf_32be')), (3, '20 °C'.encode('utf_32be')), (3, b''), (3, b'\x00\x00\xd8\x00'),
+               (4, 'été à Noël'.encode('utf_16be')), (4, '\U0001f600'.encode('utf_16be')), (4, b'\xd8\x00'),
+               (5, 'Grüße'.encode('latin_1')), (5, b'plain'), (1, b'ab'), (2, b'\x81\x40'), (6, b'xy'), (255, b'')]
+
+
+def tag_for(spec):
+    """the application tag a fresh object holding this state encodes to (None when it refuses)"""
+    r = impl_enc(spec)
+    if r[0] != 0:
+        return None
+    return (r[1], r[2], r[3], bytes(r[5:]))
+
+
+def history_cases(rng, tier):
+    quick = tier != 'thorough'
+    out = []
+    for k in KINDS:
+        reps = (2 if k in ('objid', 'chars', 'bits') else 1) if quick else 6
+        for _ in range(reps):
+            specs = value_specs(rng, k) if k != 'enum' else []
+            if k == 'enum':
+                ident = rng.choice(['E_primitivedata_ObjectType', 'E_basetypes_SecurityLevel', 'E_basetypes_Segmentation'])
+                vals, tbl = enum_values(classes()['enum'][ident], rng)
+                specs = [('enum', ident, v) for v in rng.sample(list(tbl), 3) + [0, 3, 77, 2 ** 32, 'noSuchName']]
+            tags = [t for t in (tag_for(sp) for sp in specs) if t is not None]
+            # malformed / foreign tags to decode into a live object
+            bad = [(0, KNUM[k], 0, b''), (1, KNUM[k], 1, b'\x00'), (0, (KNUM[k] + 1) % 13, 1, b'\x01'), (0, KNUM[k], 3, b'\x01\x02\x03')]
+            for spec in specs:
+                for _ in range(5 if quick else 12):
+                    ops = [('enc', None)]
+                    for _ in range(rng.randrange(2, 6)):
+                        r = rng.random()
+                        if r < 0.35 and tags:
+                            ops.append(('dec', rng.choice(tags)))
+                        elif r < 0.42:
+                            ops.append(('dec', rng.choice(bad)))
+                        elif r < 0.55:
+                            ops.append(('assign', rng.choice(specs)))
+                        elif r < 0.65:
+                            ops.append(('copy',))
+                        elif r < 0.9 and k == 'objid':
+                            t, i = rng.choice(objid_pool(rng, 4))
+                            ops.append(rng.choice([('set_tuple', t, i), ('set_long', rng.choice([rng.getrandbits(32), -1, 2 ** 32 + 5, (1023 << 22) | 7])), ('get_long',)]))
+                        elif r < 0.9 and k == 'bits':
+                            ops.append(('setbit', rng.randrange(-1, 19), rng.random() < 0.5))
+                        ops.append(('enc', rng.choice([None, None] + CTX_QUICK)))
+                    out.append(case_history(spec, ops))
+    return out
+
+
 # ------------------------------------------------------------------ generators
 def int_grid():
     g = {0}
@@ -656,6 +850,7 @@ def cases(rng, tier):
         tag = (cls, num, ln if rng.random() < 0.8 else rng.randrange(300), rand_bytes(rng, ln))
         out.append(case_a2c(rng.choice(ctxs), tag))
         out.append(case_c2a(rng.choice([0, 1, 1, 2, 7, 12]), tag))
+    out += history_cases(rng, tier)
     return out
 
 
@@ -966,7 +1161,287 @@ def direct(rng, tier, focus=()):
                     failures.append(f)
         except Exception:
             pass
-    return failures, {'evaluations': n, 'distinct_nontrivial': len(nontriv), 'exhaustive': False, 'samples': samples}
+    # object life cycles: one object through construct / encode / decode-into / setters / copy, predicate after every step
+    hf, hn, hnt = direct_histories(rng, tier)
+    failures.extend(hf)
+    samples.append({'direct': 'object life cycles', 'histories_with_state_change': hnt, 'predicate_evaluations': hn})
+    return failures, {'evaluations': n + hn, 'distinct_nontrivial': len(nontriv) + hnt, 'life_cycle_histories': hnt, 'exhaustive': False, 'samples': samples}
+
+
+# ------------------------------------------------------------------ direct predicate on object life cycles
+CODECS = {0: 'utf-8', 3: 'utf_32be', 4: 'utf_16be', 5: 'latin_1'}
+
+
+def obj_state(kind, o):
+    """everything encode() may look at, in comparable form"""
+    if kind == 'chars':
+        return ('chars', o.value, o.strEncoding, bytes(o.strValue))
+    if kind in ('real', 'double'):
+        return (kind, d2b(o.value))
+    if kind == 'bits':
+        return (kind, tuple(1 if b else 0 for b in o.value))
+    if kind == 'octets':
+        return (kind, bytes(o.value))
+    return (kind, o.value if not isinstance(o.value, list) else tuple(o.value))
+
+
+def want_octets(kind, o, ctx, tbl):
+    """reference octets for the value the object holds NOW (independent encoder); ('skip',) when the standard
+    gives no canonical form for it (NaN, unknown charset, octets that are not text of their charset); None = cannot be carried"""
+    v = o.value
+    if kind == 'bool':
+        return spec_bool(v, ctx)
+    if kind in ('real', 'double') and math.isnan(v):
+        return ('skip',)
+    if kind == 'chars':
+        cs = o.strEncoding
+        if cs not in CODECS:
+            return ('skip',)
+        try:
+            if bytes(o.strValue).decode(CODECS[cs]) != v:
+                return ('skip',)                 # charset 0 octets that were read through the latin-1 fallback
+        except UnicodeError:
+            return ('skip',)
+        c = bytes([cs]) + v.encode(CODECS[cs])
+        return spec_header(0, 7, len(c)) + c if ctx is None else spec_header(1, ctx, len(c)) + c
+    return spec_octets(kind, v, ctx, tbl)
+
+
+def check_object(obj, cls, kind, ctxs, tbl, info):
+    """the property's predicate on a LIVE object: the octets it emits now are the reference octets of the value it
+    holds now, they decode (fresh object) to that value, in both tagging modes, and encode() leaves the object alone"""
+    from bacpypes.pdu import PDUData
+    p = P()
+    before = obj_state(kind, obj)
+    v = obj.value
+    want_val = expected_after(kind, v)
+    for ctx in [None] + list(ctxs):
+        mode = 'app' if ctx is None else 'ctx%d' % ctx
+        want = want_octets(kind, obj, ctx, tbl)
+        try:
+            t = p.Tag()
+            obj.encode(t)
+            if ctx is not None:
+                t = t.app_to_context(ctx)
+            pdu = PDUData()
+            t.encode(pdu)
+            octets = bytes(pdu.pduData)
+        except Exception as e:
+            if obj_state(kind, obj) != before:
+                return dict(info, kind='encode-mutates-value', mode=mode, before=repr(before)[:160], after=repr(obj_state(kind, obj))[:160])
+            if want is None:
+                continue
+            return dict(info, kind='refused-representable', mode=mode, exc=repr(e)[:120], value=repr(v)[:120])
+        if obj_state(kind, obj) != before:
+            return dict(info, kind='encode-mutates-value', mode=mode, before=repr(before)[:160], after=repr(obj_state(kind, obj))[:160])
+        if want is not None and want != ('skip',) and octets != want:
+            return dict(info, kind='not-canonical', mode=mode, value=repr(v)[:120], got=octets[:40].hex(), want=want[:40].hex())
+        try:
+            pd = PDUData(octets)
+            t2 = p.Tag(pd)
+            rest = bytes(pd.pduData)
+            if ctx is not None:
+                t2 = t2.context_to_app(cls._app_tag)
+            back = cls(t2)
+        except Exception as e:
+            return dict(info, kind='decode-fails', mode=mode, octets=octets[:40].hex(), value=repr(v)[:120], exc=repr(e)[:120])
+        if rest:
+            return dict(info, kind='octets-left-over', mode=mode, octets=octets[:40].hex())
+        ok = want_val is not None and same_value(kind, back.value, want_val)
+        if kind == 'chars':
+            ok = ok and back.strEncoding == obj.strEncoding
+        if not ok:
+            return dict(info, kind='value-altered', mode=mode, octets=octets[:40].hex(), value=repr(v)[:120], decoded=repr(back.value)[:120])
+    return None
+
+
+def ref_tag(kind, cls, w, tbl, ctx=None, charset=0):
+    """a Tag built from reference octets (independent encoder) for the in-domain value w; application class"""
+    from bacpypes.pdu import PDUData
+    p = P()
+    if kind == 'bool':
+        octets = spec_bool(w, ctx)
+    elif kind == 'chars':
+        c = bytes([charset]) + w.encode(CODECS[charset])
+        octets = spec_header(0, 7, len(c)) + c if ctx is None else spec_header(1, ctx, len(c)) + c
+    else:
+        octets = spec_octets(kind, w, ctx, tbl)
+    t = p.Tag(PDUData(octets))
+    if ctx is not None:
+        t = t.context_to_app(cls._app_tag)
+    return t
+
+
+LIFE_VALUES = {
+    'null': [None],
+    'bool': [True, False],
+    'unsigned': [0, 1, 255, 256, 65535, 65536, 2 ** 24, 2 ** 32 - 1],
+    'integer': [0, 1, -1, 127, 128, -128, -129, 32767, 32768, -32768, -32769, 2 ** 31 - 1, -2 ** 31],
+    'real': [0.0, -0.0, 1.5, -2.25, 3.4028234663852886e+38, 1e-45, float('inf')],
+    'double': [0.0, 0.1, -1e300, 5e-324, float('-inf')],
+    'octets': [b'', b'\x00', b'abcde', bytes(range(40))],
+    'chars': ['', 'AHU-1 supply', 'Grüße', '20 °C', 'été à Noël', '\U0001f600 ok'],
+    'bits': [[], [1], [0, 1, 1], [1] * 8, [0, 1] * 6, [1, 0, 0, 1, 1, 0, 1, 0, 1]],
+    'date': [(124, 2, 29, 4), (255, 255, 255, 255), (0, 1, 1, 1)],
+    'time': [(0, 0, 0, 0), (23, 59, 59, 99), (255, 255, 255, 255)],
+}
+
+
+def life_values(rng, kind, cls, tbl):
+    if kind == 'enum':
+        names = list(tbl)
+        return rng.sample(names, min(4, len(names))) + [n for n in (0, 1, 77, 255, 256, 70000) if n not in tbl.values()]
+    if kind == 'objid':
+        names = list(tbl)
+        out = [(rng.choice(names), rng.randrange(2 ** 22)) for _ in range(3)]
+        out += [(0, 0), (1023, 4194303), (8, 5), (rng.randrange(1024), rng.randrange(2 ** 22)), (700, 1)]
+        return out
+    return LIFE_VALUES[kind]
+
+
+def history_direct(rng, cls, kind, tbl, nsteps, script=None):
+    """One object, a random (or replayed) history through the public API; the predicate after every step.
+    Returns (failure or None, script, number of predicate evaluations)."""
+    p = P()
+    vals = life_values(rng, kind, cls, tbl) if script is None else None
+    steps = [] if script is None else list(script)
+    done = []
+    info = {'class': '%s.%s' % (cls.__module__, cls.__name__), 'prim': kind}
+    obj = None
+    orig = None                                 # (object a copy was made of, its state at that time): must stay as it was
+    n = 0
+
+    def pick():
+        return rng.choice(vals)
+
+    i = 0
+    while True:
+        if script is None:
+            if i > nsteps:
+                break
+            if i == 0:
+                st = ('new', pick())
+            else:
+                r = rng.random()
+                cs = rng.choice([0, 3, 4, 5]) if kind == 'chars' else 0
+                if kind == 'null':
+                    st = rng.choice([('decode', None, None, 0), ('copy',), ('decode', None, rng.choice(CTX_QUICK), 0)])
+                elif r < 0.4 or (kind == 'chars' and r < 0.7):
+                    w = pick()
+                    if kind == 'chars' and cs == 5 and any(ord(ch) > 255 for ch in w):
+                        cs = 3
+                    st = ('decode', w, rng.choice([None, None] + CTX_QUICK), cs)
+                elif r < 0.55:
+                    st = ('copy',)
+                elif r < 0.65 and kind == 'objid':
+                    st = ('touch', rng.choice(['get_long', 'lt', 'sort', 'hash', 'str']))
+                elif kind == 'objid':
+                    t, inst = pick()
+                    st = rng.choice([('set_tuple', t, inst), ('set_long', rng.getrandbits(32))])
+                elif kind == 'bits' and len(obj.value) > 0:
+                    st = ('setitem', rng.randrange(len(obj.value)), rng.randrange(2))
+                elif kind == 'enum' and r < 0.8:
+                    st = ('new', pick())
+                else:
+                    w = pick()
+                    if kind == 'chars' and cs == 5 and any(ord(ch) > 255 for ch in w):
+                        cs = 4
+                    st = ('decode', w, rng.choice([None] + CTX_QUICK), cs)
+        else:
+            if i >= len(steps):
+                break
+            st = steps[i]
+        i += 1
+        done.append(st)
+        expected = None
+        try:
+            if st[0] == 'new':
+                obj = cls(st[1]) if kind != 'null' else cls()
+                expected = None
+            elif st[0] == 'decode':
+                tag = ref_tag(kind, cls, st[1], tbl, st[2], st[3])
+                fresh = cls(ref_tag(kind, cls, st[1], tbl, st[2], st[3]))
+                obj.decode(tag)
+                expected = obj_state(kind, fresh)
+            elif st[0] == 'copy':
+                expected = obj_state(kind, obj)
+                orig = (obj, expected)
+                obj = cls(obj)
+            elif st[0] == 'set_tuple':
+                obj.set_tuple(st[1], st[2])
+                expected = obj_state(kind, cls((st[1], st[2])))
+            elif st[0] == 'set_long':
+                obj.set_long(st[1])
+                expected = obj_state(kind, cls(st[1]))
+            elif st[0] == 'setitem':
+                lst = [1 if b else 0 for b in obj.value]
+                lst[st[1]] = st[2]
+                obj[st[1]] = st[2]
+                expected = ('bits', tuple(lst))
+            elif st[0] == 'touch':
+                expected = obj_state(kind, obj)
+                other = cls((3, 99))
+                if st[1] == 'get_long':
+                    obj.get_long()
+                elif st[1] == 'lt':
+                    obj < other
+                elif st[1] == 'sort':
+                    sorted([other, obj, cls((1, 1))])
+                elif st[1] == 'hash':
+                    hash(obj)
+                else:
+                    str(obj)
+        except Exception as e:
+            return dict(info, kind='history-step-raises', step=len(done) - 1, exc=repr(e)[:160], history=[replay_step(x) for x in done]), done, n
+        if expected is not None and obj_state(kind, obj) != expected:
+            return dict(info, kind='object-differs-from-fresh', step=len(done) - 1, state=repr(obj_state(kind, obj))[:160],
+                        fresh=repr(expected)[:160], history=[replay_step(x) for x in done]), done, n
+        if orig is not None and obj_state(kind, orig[0]) != orig[1]:
+            return dict(info, kind='copy-shares-state-with-original', step=len(done) - 1, original_now=repr(obj_state(kind, orig[0]))[:160],
+                        original_was=repr(orig[1])[:160], history=[replay_step(x) for x in done]), done, n
+        n += 1
+        f = check_object(obj, cls, kind, [rng.choice(CTX_QUICK)] if script is None else CTX_QUICK, tbl, info)
+        if f:
+            f['step'] = len(done) - 1
+            f['history'] = [replay_step(x) for x in done]
+            return f, done, n
+    return None, done, n
+
+
+def replay_step(st):
+    return [st[0]] + [replay_arg(x) for x in st[1:]]
+
+
+def unreplay_step(st):
+    return tuple([st[0]] + [unreplay_arg(x) for x in st[1:]])
+
+
+def life_classes(rng):
+    """(class, kind, table) for every base class, plus a few subclasses with tables"""
+    p = P()
+    out = [(p.Null, 'null', None), (p.Boolean, 'bool', None), (p.Unsigned, 'unsigned', None), (p.Integer, 'integer', None),
+           (p.Real, 'real', None), (p.Double, 'double', None), (p.OctetString, 'octets', None), (p.CharacterString, 'chars', None),
+           (p.BitString, 'bits', None), (p.Date, 'date', None), (p.Time, 'time', None),
+           (p.ObjectIdentifier, 'objid', enum_values(p.ObjectType, rng)[1])]
+    en = classes()['enum']
+    for ident in ['E_primitivedata_ObjectType', 'E_basetypes_SecurityLevel', 'E_basetypes_Segmentation'] + rng.sample(sorted(en), 5):
+        out.append((en[ident], 'enum', enum_values(en[ident], rng)[1]))
+    return out
+
+
+def direct_histories(rng, tier):
+    quick = tier != 'thorough'
+    failures, n, nontriv = [], 0, 0
+    for cls, kind, tbl in life_classes(rng):
+        for _ in range((200 if kind in ('objid', 'chars') else 80) if quick else 3000):
+            f, done, k = history_direct(rng, cls, kind, tbl, rng.randrange(3, 9))
+            n += k
+            if len(done) > 2:
+                nontriv += 1
+            if f:
+                failures.append(f)
+                break                           # one history per class is enough for a replay
+    return failures, n, nontriv
 
 
 # ------------------------------------------------------------------ replay / classification
@@ -1030,9 +1505,19 @@ def replay(payload):
     if not f:
         print('replay: no failing input stored (unproved obligation):', payload.get('broken'))
         return
-    print('replay', {k: v for k, v in f.items() if k != 'replay_arg'})
+    print('replay', {k: v for k, v in f.items() if k not in ('replay_arg', 'history')})
     modname, clsname = f['class'].rsplit('.', 1)
     cls = getattr(importlib.import_module(modname), clsname)
+    if 'history' in f:
+        import random
+        prim = f['prim']
+        tbl = enum_values(cls, None)[1] if prim == 'enum' else (enum_values(P().ObjectType, None)[1] if prim == 'objid' else None)
+        script = [unreplay_step(st) for st in f['history']]
+        for st in script:
+            print('  step', st)
+        res, _, _ = history_direct(random.Random(0), cls, prim, tbl, 0, script=script)
+        print('implementation:', 'property holds for this history' if res is None else {k: v for k, v in res.items() if k != 'history'})
+        return
     arg = unreplay_arg(f['replay_arg'])
     prim = f['prim']
     tbl = enum_values(cls, None)[1] if prim == 'enum' else (enum_values(P().ObjectType, None)[1] if prim == 'objid' else None)
